@@ -449,16 +449,6 @@ namespace PonyVerif.Model.Tracked
 
 /-! ### plain values (what `json.loads` gives: no wrapper flags, no tuples) -/
 
-mutual
-def isPlain : T → Bool
-  | .atom _ => true
-  | .node .tup _ _ => false
-  | .node _ w xs => !w && isPlainL xs
-def isPlainL : Items → Bool
-  | [] => true
-  | (_, v) :: xs => isPlain v && isPlainL xs
-end
-
 theorem isPlainL_iff (xs : Items) : isPlainL xs = true ↔ ∀ p ∈ xs, isPlain p.2 = true := by
   induction xs with
   | nil => simp [isPlainL]
